@@ -288,7 +288,7 @@ def main(tier, seed_):
         for path in runner.replay_files(ID):
             for f in replay_case(json.load(open(path))["case"], stats):
                 stats.fail(f)
-    temps = [t for t in catalogue.templates("quick") if tier != "quick" or t[0].split(":")[0] in ("bin", "un", "chain", "spec", "ter", "mem")]
+    temps = [t for t in catalogue.templates("quick") if tier != "quick" or t[0].split(":")[0] in ("bin", "un", "chain", "spec", "ter", "mem", "share")]
     n = 3200 if tier == "quick" else 120000
     per = max(1, n // runner.NPROC)
     jobs = [(shard_random, (per, runner.shard_seed(seed_, i, "c16"))) for i in range(runner.NPROC)]
